@@ -44,16 +44,17 @@ Definition ls_prog (pid : N) (m1 m2 : list N) : list instr :=
   store_open ls_store_blocking ls_store_dir ++ [Read (ls_store_dir, 1)] ++
   store_write_blob pid ls_store_dir [7] [8] ++
   store_save pid ls_store_dir m1 m2 ++ [Unlock ls_store_dir].
-Definition ls_system : state :=
-  (fs0 [] [D_BUILD; D_OUT],
-   [P 1 (build_prog 1 [10] [11]); P 2 (ls_prog 2 [20] [21]); P 3 (ls_prog 3 [30] [31])]).
+Definition ls_system_build : state :=
+  (fs0 [] [D_BUILD; D_OUT], [P 1 (build_prog 1 [10] [11]); P 2 (ls_prog 2 [20] [21])]).
+Definition ls_system_two : state :=
+  (fs0 [] [D_BUILD; D_OUT], [P 2 (ls_prog 2 [20] [21]); P 3 (ls_prog 3 [30] [31])]).
 Definition ls_ok (p : path) : list (list N) :=
   if snd p =? 0 then [[10; 11]; [20; 21]; [30; 31]] else [[7; 8]].
-Definition ls_safe (s : state) : bool :=
+Definition ls_safe (ls_positions : list nat) (s : state) : bool :=
   guarded build_store_dir build_store_dir s &&
   guarded ls_store_dir ls_store_dir s &&
   reads_complete build_store_dir ls_ok true s && reads_complete ls_store_dir ls_ok true s &&
-  never_blocked 1 s && never_blocked 2 s.               (* the language servers never wait *)
+  forallb (fun i => never_blocked i s) ls_positions.   (* the language servers never wait *)
 
 (* ---- 4. standard-library expansion: every process expands, then reads both std files *)
 Definition F1 : list N := [1; 2].
@@ -84,4 +85,4 @@ Definition T1 : list N := [5; 6].
 Definition dep_system : state :=
   (fs0 [] [], [P 1 (dep_checkout 1 [5] [6]); P 2 (dep_checkout 2 [5] [6]); P 3 (dep_checkout 3 [5] [6])]).
 Definition dep_safe (s : state) : bool :=
-  reads_complete D_CO (fun _ => [T1]) false s && guarded D_CO D_DEPS s.
+  reads_complete D_CO (fun _ => [T1]) false s && guarded_writes D_CO D_DEPS s.
